@@ -8,6 +8,7 @@ import (
 	"errors"
 	"fmt"
 	"io"
+	"net"
 	"sort"
 	"strings"
 
@@ -39,6 +40,8 @@ type obs struct {
 	log        []pev
 	closes     []*closeRec
 	excToTail  []error // exceptions our probe forwarded towards the tail (each becomes a Close argument there)
+	excBroken  []error // consumed exceptions that carry a non-timeout net.Error: the framework itself closes with them
+	excEOF     int     // consumed exceptions carrying io.EOF
 	served     int     // step at which ServeChannel returned
 	parentUsed bool
 }
@@ -49,6 +52,8 @@ type probe struct {
 	closeOnAct    error
 	closeOnRead   error
 	readsSeen     int
+	wrap          bool // the reading handler wraps transport errors (as the shipped codecs do) before panicking
+	consume       bool // the application's exception handler logs and does not forward
 }
 
 func (p *probe) ev(k string, err error) {
@@ -74,11 +79,16 @@ func (p *probe) HandleActive(ctx netty.ActiveContext) {
 }
 
 func (p *probe) HandleRead(ctx netty.InboundContext, msg netty.Message) {
-	p.ev("read-begin", nil)
-	defer p.ev("read-end", nil)
+	if p.o.excEOF+len(p.o.excBroken) < 2 { // (a spinning loop is recorded once)
+		p.ev("read-begin", nil)
+		defer p.ev("read-end", nil)
+	}
 	var b [16]byte
 	_, err := msg.(io.Reader).Read(b[:])
 	if err != nil {
+		if p.wrap {
+			panic(fmt.Errorf("read header fail: %w", err))
+		}
 		panic(err)
 	}
 	p.readsSeen++
@@ -88,6 +98,23 @@ func (p *probe) HandleRead(ctx netty.InboundContext, msg netty.Message) {
 }
 
 func (p *probe) HandleException(ctx netty.ExceptionContext, ex netty.Exception) {
+	if p.consume {
+		var ne net.Error
+		if errors.As(ex, &ne) && !ne.Timeout() {
+			if len(p.o.excBroken) == 0 {
+				p.ev("exception", ex)
+			}
+			p.o.excBroken = append(p.o.excBroken, ex)
+		} else if errors.Is(ex, io.EOF) {
+			if p.o.excEOF == 0 {
+				p.ev("exception", ex)
+			}
+			p.o.excEOF++
+		} else {
+			p.ev("exception", ex)
+		}
+		return
+	}
 	p.ev("exception", ex)
 	p.o.excToTail = append(p.o.excToTail, ex)
 	ctx.HandleException(ex) // reaches the tail, which closes the channel with ex
@@ -102,11 +129,12 @@ func (p *probe) HandleInactive(ctx netty.InactiveContext, ex netty.Exception) {
 }
 
 var (
-	errU1   = errors.New("user close 1")
-	errU2   = errors.New("user close 2")
-	errAct  = errors.New("closed in HandleActive")
-	errRead = errors.New("closed in HandleRead")
-	errHold = errors.New("holder CloseAll")
+	errU1    = errors.New("user close 1")
+	errU2    = errors.New("user close 2")
+	errAct   = errors.New("closed in HandleActive")
+	errRead  = errors.New("closed in HandleRead")
+	errHold  = errors.New("holder CloseAll")
+	errReset = errors.New("connection reset by peer")
 )
 
 // kinds of closers
@@ -119,6 +147,10 @@ const (
 	kWFail  = "writeFail" // write-side failure in the background sender
 	kHolder = "holder"
 	kParent = "parentCancel"
+	kReset  = "readReset" // read-side transport failure that is a non-timeout net.Error (connection reset)
+	// not closers: how the application's handlers treat the read failure
+	kWrap    = "codecWrapsError"
+	kConsume = "exceptionConsumed"
 	// not a closer: the application's inactive handler panics (after recording the event)
 	kInactPanic = "inactiveHandlerPanics"
 )
@@ -133,11 +165,12 @@ func scenario(cfg hlib.ChanCfg, kinds []string, bound int) *explore.Scenario {
 		return false
 	}
 	return &explore.Scenario{
-		Name:  fmt.Sprintf("%s/%s", cfg, strings.Join(kinds, "+")),
-		Bound: bound,
-		Cache: true,
-		Cfg:   vsched.Config{MaxSteps: 6000},
-		Init:  func() any { return &obs{served: -1} },
+		Name:          fmt.Sprintf("%s/%s", cfg, strings.Join(kinds, "+")),
+		Bound:         bound,
+		Cache:         true,
+		Cfg:           vsched.Config{MaxSteps: 6000},
+		AllowAbnormal: has(kConsume),
+		Init:          func() any { return &obs{served: -1} },
 		Body: func(v any) {
 			o := v.(*obs)
 			p := &probe{o: o}
@@ -148,6 +181,7 @@ func scenario(cfg hlib.ChanCfg, kinds []string, bound int) *explore.Scenario {
 				p.closeOnRead = errRead
 			}
 			p.panicInactive = has(kInactPanic)
+			p.wrap, p.consume = has(kWrap), has(kConsume)
 			var parent context.Context = context.Background()
 			var cancelParent func()
 			if has(kParent) {
@@ -164,6 +198,9 @@ func scenario(cfg hlib.ChanCfg, kinds []string, bound int) *explore.Scenario {
 			}
 			if has(kWFail) {
 				e.T.FailWriteAt = 1
+			}
+			if has(kReset) {
+				e.T.ReadErr = &net.OpError{Op: "read", Net: "mock", Err: errReset}
 			}
 			e.PL = netty.NewPipeline()
 			e.PL.AddLast(holder, p)
@@ -274,7 +311,23 @@ func scenario(cfg hlib.ChanCfg, kinds []string, bound int) *explore.Scenario {
 				add("read-before-active-done", "a read was delivered before the active event had completed;"+ctxs)
 			}
 			// which closers are guaranteed to happen
-			anyClose := len(o.closes) > 0 || len(o.excToTail) > 0 || o.parentUsed
+			anyClose := len(o.closes) > 0 || len(o.excToTail) > 0 || o.parentUsed || len(o.excBroken) > 0
+			if x.Abnormal() != "" && has(kConsume) {
+				// the scheduler's verdict for a read loop that keeps calling a failed transport
+				// (reads fail identically, nothing else can run) is a livelock
+				if o.env.T.Closes == 0 && ninact == 0 && (len(o.excBroken) > 0 || o.excEOF > 0) {
+					what := "eof"
+					if len(o.excBroken) > 0 {
+						what = "net-error"
+						if has(kWrap) {
+							what = "wrapped-net-error"
+						}
+					}
+					add("read-loop-not-terminated/"+what+"+exception-consumed", fmt.Sprintf("transport reads fail (%s) but the read loop keeps running: %s;%s", what, x.Abnormal(), ctxs))
+				} else {
+					add("sched/"+strings.SplitN(x.Abnormal(), "[", 2)[0], "scheduler verdict: "+x.Abnormal()+";"+ctxs)
+				}
+			}
 			if o.env.T.Closes > 1 {
 				add("transport-closed-twice", fmt.Sprintf("transport Close called %d times;%s", o.env.T.Closes, ctxs))
 			}
@@ -306,6 +359,11 @@ func scenario(cfg hlib.ChanCfg, kinds []string, bound int) *explore.Scenario {
 				}
 				for _, e := range o.excToTail {
 					if e == inactErr || (e != nil && errors.Is(inactErr, e)) {
+						ok = true
+					}
+				}
+				for _, e := range o.excBroken { // the framework's own Close(e) for a broken transport
+					if e == inactErr || errors.Is(inactErr, e) {
 						ok = true
 					}
 				}
@@ -350,6 +408,8 @@ func build(tier string) []*explore.Scenario {
 		{kOnAct, kUser1}, {kPeer, kWFail}, {kParent, kUser1}, {kHolder, kWFail}, {kOnRead, kPeer},
 		{kUser1, kUser2, kOnRead}, {kUser1, kHolder, kPeer},
 		{kUser1, kInactPanic}, {kPeer, kInactPanic}, {kOnRead, kInactPanic},
+		{kReset}, {kReset, kWrap}, {kReset, kConsume}, {kReset, kWrap, kConsume}, {kReset, kWrap, kConsume, kUser1},
+		{kPeer, kConsume}, {kPeer, kConsume, kUser1}, {kReset, kConsume, kWFail},
 	}
 	if tier == "thorough" {
 		sets = append(sets, []string{kUser1, kUser2, kHolder}, []string{kOnRead, kWFail, kUser1}, []string{kParent, kHolder}, []string{kOnAct, kHolder, kUser1})
